@@ -434,9 +434,17 @@ type faultRunner struct {
 func faultRunners() []faultRunner {
 	var out []faultRunner
 	// EdDSA keygen n=3,t=1
+	// key generation: (3,1); shape 4 = (3,2), so that a dealer configured with t-1 still deals a polynomial of degree >= 1
+	kgT := 1
 	out = append(out, faultRunner{proto: "eddsa_keygen", cost: 1,
-		build: func(seed int64) *runCtx { return buildEdDSAKeygen(3, 1, kgOpts{seed: fmt.Sprintf("f-%d", seed)}) },
-		judge: func(rc *runCtx, honest []*sched.Node) string { return judgeKeygen(rc, honest, "ed25519", 1) }})
+		build: func(seed int64) *runCtx {
+			kgT = 1
+			if faultShape == 4 {
+				kgT = 2
+			}
+			return buildEdDSAKeygen(3, kgT, kgOpts{seed: fmt.Sprintf("f-%d", seed)})
+		},
+		judge: func(rc *runCtx, honest []*sched.Node) string { return judgeKeygen(rc, honest, "ed25519", kgT) }})
 	out = append(out, faultRunner{proto: "eddsa_signing", cost: 1,
 		build: func(seed int64) *runCtx {
 			ks, pids := edKeys(3, 1, nil)
@@ -502,9 +510,16 @@ func faultRunners() []faultRunner {
 			ks, _ := fixtures()
 			return judgeECDSASig(rc, honest, ks[0], big.NewInt(4242))
 		}})
+	ecKgT := 1
 	out = append(out, faultRunner{proto: "ecdsa_keygen", cost: 400,
-		build: func(seed int64) *runCtx { return buildECDSAKeygen(3, 1, kgOpts{seed: fmt.Sprintf("f-%d", seed)}) },
-		judge: func(rc *runCtx, honest []*sched.Node) string { return judgeKeygen(rc, honest, "secp256k1", 1) }})
+		build: func(seed int64) *runCtx {
+			ecKgT = 1
+			if faultShape == 4 {
+				ecKgT = 2
+			}
+			return buildECDSAKeygen(3, ecKgT, kgOpts{seed: fmt.Sprintf("f-%d", seed)})
+		},
+		judge: func(rc *runCtx, honest []*sched.Node) string { return judgeKeygen(rc, honest, "secp256k1", ecKgT) }})
 	var ecOld []*big.Int
 	out = append(out, faultRunner{proto: "ecdsa_resharing", cost: 900,
 		build: func(seed int64) *runCtx {
@@ -656,6 +671,9 @@ func runFault(fr faultRunner, f fault, seed int64) faultResult {
 	if f.Kind == "recommit-torsion" {
 		faultShape = 3 // resharing: the new threshold is above the old one
 	}
+	if f.Kind == "config-threshold-1" && strings.HasSuffix(f.Proto, "keygen") {
+		faultShape = 4 // key generation with t = 2: the deviator's t-1 is still a usable threshold
+	}
 	shape := faultShape
 	// recommit-torsion, first pass: the same run (same seed, so the same values) unaltered, to learn what the deviator will open
 	// and what the honest parties emit
@@ -690,7 +708,11 @@ func runFault(fr faultRunner, f fault, seed int64) faultResult {
 			cfgThresholdDelta = -1
 		}
 	}
+	if strings.HasSuffix(f.Kind, "@conc1") {
+		cfgConcurrency = 1
+	}
 	rc := fr.build(seed)
+	cfgConcurrency = 0
 	cfgDeviator, cfgThresholdDelta = "", 0
 	faultShape = 0
 	net := rc.net
@@ -884,7 +906,7 @@ func runFault(fr faultRunner, f fault, seed int64) faultResult {
 					c.Wire = donor
 					res.Applied++
 				}
-			} else if nw, ok := alterField(c.Wire, f.Field, f.Index, strings.TrimSuffix(strings.TrimSuffix(strings.TrimSuffix(f.Kind, "@same"), "@last"), "@late"), rng, donor); ok {
+			} else if nw, ok := alterField(c.Wire, f.Field, f.Index, strings.TrimSuffix(strings.TrimSuffix(strings.TrimSuffix(strings.TrimSuffix(f.Kind, "@same"), "@last"), "@late"), "@conc1"), rng, donor); ok {
 				c.Wire = nw
 				res.Applied++
 			}
@@ -1069,6 +1091,10 @@ func enumerateFaults(fr faultRunner, kinds []string, deviators []string, sampleI
 						out = append(out, fault{fr.proto, d, t, fi.name, ix, k})
 					}
 				}
+				if fi.list && strings.HasPrefix(fi.name, "dlnproof") && len(kinds) > 0 {
+					// an undecodable DLN proof (the length prefix altered) met by parties that verify one proof at a time
+					out = append(out, fault{fr.proto, d, t, fi.name, 0, kinds[0] + "@conc1"})
+				}
 				if firstRound[t] && len(kinds) > 0 {
 					// the same alteration met by a party that has not called Start yet (the message waits in its inbox)
 					out = append(out, fault{fr.proto, d, t, fi.name, 0, kinds[0] + "@late"})
@@ -1167,7 +1193,7 @@ func faultList(fr faultRunner, tier, prop string) []fault {
 				continue
 			}
 			rec = append(rec, fault{fr.proto, d, "-", "config", 0, "config-threshold+1"})
-			if thorough || fr.cost <= 2 {
+			if thorough || fr.cost <= 400 {
 				rec = append(rec, fault{fr.proto, d, "-", "config", 0, "config-threshold-1"})
 			}
 		}
@@ -1183,7 +1209,7 @@ func faultList(fr faultRunner, tier, prop string) []fault {
 		var inj []fault
 		var firstInj *fault
 		for _, f := range all {
-			if f.Kind == "index-sweep" || strings.HasPrefix(f.Kind, "recommit-") || strings.HasPrefix(f.Kind, "config-") {
+			if f.Kind == "index-sweep" || strings.HasPrefix(f.Kind, "recommit-") || strings.HasPrefix(f.Kind, "config-") || (strings.HasSuffix(f.Kind, "@conc1") && fr.cost <= 400) {
 				inj = append(inj, f)
 				continue
 			}
@@ -1205,6 +1231,9 @@ func faultList(fr faultRunner, tier, prop string) []fault {
 			forced = append(forced, f)
 		}
 		if strings.HasSuffix(f.Kind, "@late") && fr.cost <= 100 {
+			forced = append(forced, f)
+		}
+		if strings.HasSuffix(f.Kind, "@conc1") && fr.cost <= 400 {
 			forced = append(forced, f)
 		}
 		// the recorded known finding (duplicate h1/h2 blame) is re-confirmed on every run
